@@ -31,11 +31,13 @@ def units(tier, seed):
         ind = [(66, 2), (2, 66)]
         api = [(1, 1), (2, 3), (3, 2), (3, 3), (4, 3), (3, 4)]
         wide = []
+        fam = [(66, 2), (2, 66)]
     else:
         shapes = [(n, m) for n in range(1, 9) for m in range(1, 9)] + [(12, 12), (16, 8), (8, 16)]
         ind = [(66, 2), (2, 66), (70, 3), (3, 70), (130, 2), (2, 130)]
         api = [(n, m) for n in range(1, 6) for m in range(1, 6)]
-        wide = [(70, 3, 6), (3, 70, 6), (100, 2, 8)]
+        wide = [(20, 3, 6), (3, 20, 6)]
+        fam = [(66, 2), (2, 66), (70, 3), (3, 70), (130, 2), (2, 130)]
     for n, m in shapes:
         us.append({'name': f'kernel {n}x{m}', 'fn': 'unit_kernel', 'args': {'n': n, 'm': m}})
     for n, m in ind:
@@ -47,6 +49,9 @@ def units(tier, seed):
         us.append({'name': f'api {n}x{m}', 'fn': 'unit_api', 'args': {'n': n, 'm': m}})
     for n, m, k in wide:
         us.append({'name': f'wide {n}x{m}', 'fn': 'unit_wide', 'args': {'n': n, 'm': m, 'k': k, 'seed': seed}})
+    for n, m in fam:
+        for side in ('intension', 'extension'):
+            us.append({'name': f'query family {n}x{m}', 'fn': 'unit_family', 'args': {'n': n, 'm': m, 'side': side}})
     # longest first
     us.sort(key=lambda u: -(u['args']['n'] * u['args']['m']))
     return us
@@ -314,11 +319,121 @@ def unit_api(args, prefix=(), max_depth=None):
                 total['queries'] += r['queries']
                 total['cex'] += r['cex']
                 total['inconclusive'] += r['inconclusive']
+    # sequences of calls on ONE context: label-form intension then extension over the same index pattern, and again
+    k = min(n, m)
+    for size in range(k + 1):
+        for sub in itertools.combinations(range(k), size):
+            on, pn = [objs[i] for i in sub], [props[i] for i in sub]
+
+            @_guard(lambda mdl, what: case(mdl, 'extension', pn, what))
+            def body_seq():
+                cx = core.ctx()
+                ctx = mk()
+                sp = harness.Spec(cells)
+                out = {'cex': [], 'queries': 0}
+                msk = sum(1 << i for i in sub)
+                for step, (side, labels, other, d) in enumerate((('intension', on, props, sp.intent), ('extension', pn, objs, sp.extent),
+                                                                 ('intension', on, props, sp.intent), ('extension', pn, objs, sp.extent))):
+                    got = (ctx.intension if side == 'intension' else ctx.extension)(list(labels))
+                    good = isinstance(got, tuple) and all(x in other for x in got)
+                    gm = sum(1 << other.index(x) for x in got) if good else 0
+                    out['queries'] += 1
+                    mdl = cx.check_fresh(z3.Not(d(msk) == gm) if good else z3.BoolVal(True), want_model=True)
+                    if mdl is not None:
+                        out['cex'].append(case(mdl, side, labels, f'call {step + 1} of a sequence on one context: {side}({labels}) '
+                                                                     f'= {got!r} != derivation'))
+                        break
+                return out
+            r = common.run_paths(body_seq, max_samples=0)
+            total['paths'] += r['paths']
+            total['queries'] += r['queries']
+            total['cex'] += r['cex'][:2]
+            total['inconclusive'] += r['inconclusive']
     total['encoded'] = harness.encoded(concepts.Context.intension, concepts.Context.extension, concepts.Context.__init__,
                                        concepts.Context.bools, concepts.matrices.Relation.__new__,
                                        concepts.matrices.Vectors._pair_with)
     total['bounds'] = f'all {n}x{m} tables x every label subset x 5 argument forms (raw) + label form per subset'
     return total
+
+
+# -- wide tables: concrete query family x fully symbolic table ----------------------------------------------------
+
+def query_family(L):
+    """argument sets around machine-word boundaries: singletons, pairs at distances 1, 62..66, prefixes, suffixes,
+    every other member, all"""
+    fam = [0, (1 << L) - 1]
+    fam += [1 << i for i in range(L)]
+    for d in (1, 2, 31, 32, 33, 62, 63, 64, 65, 66, 127, 128, 129):
+        fam += [(1 << i) | (1 << (i + d)) for i in range(L - d)]
+    fam += [(1 << k) - 1 for k in (2, 31, 32, 33, 63, 64, 65, 127, 128, 129) if k < L]
+    fam += [((1 << L) - 1) ^ ((1 << k) - 1) for k in (1, 32, 63, 64, 65, 128) if k < L]
+    fam += [int('01' * L, 2) & ((1 << L) - 1), int('10' * L, 2) & ((1 << L) - 1), int('1' + '0' * 63, 2) * 0 + sum(1 << i for i in range(0, L, 63)),
+            sum(1 << i for i in range(0, L, 64)), sum(1 << i for i in range(63, L, 64))]
+    out, seen = [], set()
+    for q in fam:
+        if q not in seen and q < (1 << L):
+            seen.add(q)
+            out.append(q)
+    return out
+
+
+def unit_family(args, prefix=(), max_depth=None):
+    """The real ``prime`` closure runs natively (concrete control flow, whatever its loop structure) on a family of
+    concrete argument sets (double/doubleprime iterate over a symbolic intermediate result and are left to the
+    inductive step) while the table stays fully symbolic; every result term is compared with the derivation."""
+    n, m, side = args['n'], args['m'], args['side']
+    harness.set_width_for(n, m)
+    harness.set_kernel_mode('real')
+    harness.load_concepts()
+    from concepts import matrices
+    cells = harness.cell_vars(n, m)
+    enc = {}
+
+    def case_(mdl, what, q=0):
+        c = _case(mdl, cells, side, q, n, m, what)
+        return c
+    state = {'q': 0}
+
+    @_guard(lambda mdl, what: case_(mdl, what, state['q']))
+    def body():
+        cx = core.ctx()
+        objs, props = harness.names(n, m)
+        intents, extents = matrices.Relation('Properties', 'Objects', props, objs, harness.sym_rows(cells))
+        sp = harness.Spec(cells)
+        vec, d1, d2, L = (extents, sp.intent, sp.closure_o, n) if side == 'intension' else (intents, sp.extent, sp.closure_p, m)
+        ks = harness.real_kernels(vec)
+        enc.update(harness.encoded(*ks.values()))
+        out = {'cex': [], 'queries': 0}
+        named = []
+        fam = query_family(L)
+        for q in fam:
+            state['q'] = q
+            x = vec.BitSet.fromint(q)
+            gp = ks['prime'](x)
+            named.append((_bv(gp) == d1(q), q, 'prime'))
+        out['queries'] = len(named)
+        if cx.check_fresh(z3.Not(z3.And(*[c for c, _, _ in named]))):
+            found = 0
+            for c, q, what in named:
+                mdl = cx.check_fresh(z3.Not(c), want_model=True)
+                if mdl is not None:
+                    out['cex'].append(case_(mdl, f'{what} of a concrete query on a symbolic {n}x{m} table != derivation', q))
+                    found += 1
+                    if found >= 3:
+                        break
+        for msg, mdl in cx.failed_obligations(want_model=True):
+            out['cex'].append(case_(mdl, f'obligation: {msg}', state['q']))
+        mdl = cx.check_fresh(want_model=True)
+        if mdl is not None and not out['cex']:
+            out['witness'] = case_(mdl, None, fam[len(fam) // 2])
+        out['sample'] = {'unit': f'query family {n}x{m} ({side})', 'queries_in_family': len(fam),
+                         'table': 'fully symbolic', 'examples': [hex(q) for q in fam[2:6]]}
+        return out
+    res = common.run_paths(body, prefix, max_depth)
+    res['encoded'] = enc
+    res['bounds'] = (f'{side}: all {n}x{m} tables x a family of {len(query_family(n if side == "intension" else m))} '
+                     f'concrete argument sets around word boundaries (enumerated, not solved)')
+    return res
 
 
 # -- wide skeletons ----------------------------------------------------------------------------------------
